@@ -810,3 +810,79 @@ def r_edgedata(ctx) -> RuleResult:
                          "every bond of the canonical graph has lost its attributes (bond type)", line=without.lineno))
     res.counts = {"rebuilt": 1}
     return res
+
+
+# --------------------------------------------------------------------------- R-IDXTRUTH
+
+
+@rule("R-IDXTRUTH")
+def r_idxtruth(ctx) -> RuleResult:
+    res = RuleResult("R-IDXTRUTH", "a zero-based atom index is never used as a truth value: index 0 is the first atom, not `no atom`")
+    from .common import closure, entry
+    fis = {f.fq: f for f in closure(ctx, "read_text", "parse")}
+    for f in ctx.cg.funcs.values():
+        if f.module.name == "tucan.parser.parser" and f.cls is not None:
+            fis[f.fq] = f
+    n_idx = n_uses = 0
+
+    def zero_based(e) -> bool:
+        """<number parsed from text> - k with k >= 1"""
+        return isinstance(e, ast.BinOp) and isinstance(e.op, ast.Sub) and isinstance(e.right, ast.Constant) and isinstance(e.right.value, int) and e.right.value >= 1 \
+            and any(isinstance(x, ast.Call) and isinstance(x.func, ast.Name) and (x.func.id == "int" or "int" in x.func.id.lower()) for x in ast.walk(e.left))
+    for f in fis.values():
+        idx: set = set()
+        for _ in range(3):
+            for n in own_walk(f.node):
+                if isinstance(n, (ast.Assign, ast.AnnAssign, ast.NamedExpr)):
+                    tg = n.targets[0] if isinstance(n, ast.Assign) else n.target
+                    v = n.value
+                    if v is None or not isinstance(tg, ast.Name):
+                        continue
+                    if zero_based(v):
+                        idx.add(tg.id)
+                    elif isinstance(v, ast.Name) and v.id in idx:
+                        idx.add(tg.id)
+                    elif isinstance(v, ast.IfExp):
+                        parts = []
+                        stack = [v]
+                        while stack:
+                            x = stack.pop()
+                            if isinstance(x, ast.IfExp):
+                                stack += [x.body, x.orelse]
+                            else:
+                                parts.append(x)
+                        if any(isinstance(p_, ast.Name) and p_.id in idx or zero_based(p_) for p_ in parts) and \
+                                all((isinstance(p_, ast.Name) and p_.id in idx) or zero_based(p_) or (isinstance(p_, ast.Constant) and p_.value is None) for p_ in parts):
+                            idx.add(tg.id)
+        n_idx += len(idx)
+        if not idx:
+            continue
+        par = {}
+        for x in ast.walk(f.node):
+            for c in ast.iter_child_nodes(x):
+                par[id(c)] = x
+        for x in own_walk(f.node):
+            if not (isinstance(x, ast.Name) and isinstance(x.ctx, ast.Load) and x.id in idx):
+                continue
+            p_ = par.get(id(x))
+            truth = (isinstance(p_, (ast.If, ast.While, ast.IfExp, ast.Assert)) and p_.test is x) \
+                or (isinstance(p_, ast.UnaryOp) and isinstance(p_.op, ast.Not)) \
+                or (isinstance(p_, ast.BoolOp) and x in p_.values[:-1]) \
+                or (isinstance(p_, ast.BoolOp) and isinstance(par.get(id(p_)), (ast.If, ast.While, ast.IfExp)) and par.get(id(p_)).test is p_) \
+                or (isinstance(p_, ast.Call) and isinstance(p_.func, ast.Name) and p_.func.id == "bool") \
+                or (isinstance(p_, ast.comprehension) and x in p_.ifs)
+            if truth:
+                n_uses += 1
+                res.inst(f.fq, f"`{short(p_, 60)}` tests the index `{x.id}` for truth", "fail")
+                res.fail(Finding("R-IDXTRUTH", f.module.rel, f.qualname, norm(p_)[:100],
+                                 f"`{x.id}` holds a zero-based atom index (or None); as a truth value the first atom (index 0) counts as `nothing`: a record that refers to the first atom is "
+                                 "handled as if it referred to no atom", line=x.lineno))
+    # fixture
+    from ..model import Repo
+    fx = Repo(ctx.repo.root, {**ctx.repo.overlay, "tucan/_tsa_fixture_idx.py": "def _fx(line, star):\n    a = int(line[4]) - 1\n    p = a if star else None\n    if p:\n        return 1\n    return 0\n"})
+    ffx = fx.func("tucan._tsa_fixture_idx._fx")
+    if not any(isinstance(n, ast.Assign) and zero_based(n.value) for n in ast.walk(ffx.node)):
+        raise AnalysisError("R-IDXTRUTH self-test: planted zero-based index not recognised")
+    res.inst("reader and parser closures", f"{len(fis)} functions, {n_idx} names holding zero-based indices, {n_uses} used as truth values", "ok" if not n_uses else "fail")
+    res.counts = {"functions": len(fis), "index_names": n_idx, "truth_uses": n_uses, "fixture_detected": 1}
+    return res
